@@ -567,6 +567,16 @@ func (sc *SubCache[EntityT, ExcerptT, CacheT]) MergeAll(remote string) <-chan en
 				// might as well keep them in memory
 				sc.cached[result.Id] = cached
 				sc.mu.Unlock()
+
+				// the merged entity has to be searchable as well
+				index, err := sc.repo.GetIndex(sc.namespace)
+				if err == nil {
+					err = index.IndexOne(result.Id.String(), sc.makeIndexData(cached))
+				}
+				if err != nil {
+					out <- entity.NewMergeError(err, result.Id)
+					return
+				}
 			}
 		}
 
